@@ -9,6 +9,9 @@
 #include <tao/pegtl/contrib/state_control.hpp>
 
 #include <csignal>
+#include <map>
+#include <memory>
+#include <tuple>
 
 #include "harness/engine.hpp"
 #include "harness/rc_util.hpp"
@@ -27,6 +30,7 @@ namespace vf
       bool observed;  // obs_control (monitor active) or plain control
       bool have_act;  // action family attached (false: tao::pegtl::nothing)
       int eol;
+      std::size_t byte0 = 0, line0 = 1, column0 = 1;  // initial counters of the input
    };
 
    struct gram_entry
@@ -242,6 +246,24 @@ namespace vf
       return r;
    }
 
+   template< typename Top,
+             template< typename... >
+             class Action,
+             template< typename... >
+             class Control,
+             pegtl::apply_mode A,
+             pegtl::rewind_mode M,
+             pegtl::tracking_mode T,
+             typename Eol,
+             std::size_t Byte0,
+             std::size_t Line0,
+             std::size_t Column0 >
+   impl_result runner_counters( const probe& pb )
+   {
+      pegtl::memory_input< T, Eol, const char* > in( pb.begin(), pb.end(), "src", Byte0, Line0, Column0 );
+      return run_parse< Top, Action, Control, A, M >( in );
+   }
+
    struct case_t
    {
       std::string input;
@@ -358,19 +380,38 @@ namespace vf
    {
       bool all_ok = true;
       // model runs (with and without actions)
-      pm::machine m_on( g, c.input ), m_off( g, c.input ), m_none( g, c.input );
-      m_on.slots = m_off.slots = m_none.slots = c.slots;
-      m_on.as = m_off.as = c.as;
-      m_none.ignore_actions = true;
-      const pm::outcome want_on = m_on.run_cfg( true );
-      const std::vector< pm::event > ev_on = m_on.events;
-      const pm::outcome want_off = m_off.run_cfg( false );
-      const std::vector< pm::event > ev_off = m_off.events;  // non-empty only through enable<>
-      const pm::outcome want_none = m_none.run_cfg( true );
-      if( want_on.k == pm::FUEL || want_off.k == pm::FUEL || want_none.k == pm::FUEL ) {
-         ++R.inconclusive;
-         R.cls( "model-fuel" );
-         return true;
+      // model runs per (action family attached, apply mode, initial byte/column counters): bof / bol depend on the counters
+      struct mrun
+      {
+         std::unique_ptr< pm::machine > mm;
+         pm::outcome want;
+         std::vector< pm::event > ev;
+      };
+      std::map< std::tuple< int, std::size_t, std::size_t >, mrun > models;
+      auto model_for = [ & ]( const cfg_entry& cf ) -> mrun& {
+         const int which = !cf.have_act ? 2 : cf.actions ? 0 : 1;
+         const auto key = std::make_tuple( which, cf.byte0, cf.column0 );
+         auto it = models.find( key );
+         if( it != models.end() ) {
+            return it->second;
+         }
+         mrun& r = models[ key ];
+         r.mm = std::make_unique< pm::machine >( g, c.input );
+         r.mm->slots = c.slots;
+         r.mm->as = c.as;
+         r.mm->byte0 = long( cf.byte0 );
+         r.mm->col0 = long( cf.column0 );
+         r.mm->ignore_actions = ( which == 2 );
+         r.want = r.mm->run_cfg( which != 1 );
+         r.ev = r.mm->events;
+         return r;
+      };
+      for( const cfg_entry& cf : ge.cfgs ) {
+         if( model_for( cf ).want.k == pm::FUEL ) {
+            ++R.inconclusive;
+            R.cls( "model-fuel" );
+            return true;
+         }
       }
       const probe pb( c.input );
       bool nontrivial = false;
@@ -385,15 +426,16 @@ namespace vf
          m.reset();
          m.g = &g;
          m.reg = &reg;
-         pm::machine& mm = !cf.have_act ? m_none : cf.actions ? m_on : m_off;
+         mrun& mr = model_for( cf );
+         pm::machine& mm = *mr.mm;
          m.model = cf.observed ? &mm : nullptr;
          m.check_model = cf.observed;
          m.check_visited = ge.visited_check;
          m.base = pb.begin();
          m.real_end = pb.end();
-         m.byte0 = 0;
-         m.line0 = 1;
-         m.column0 = 1;
+         m.byte0 = cf.byte0;
+         m.line0 = cf.line0;
+         m.column0 = cf.column0;
          m.eol_policy = cf.eol;
          m.lazy = cf.lazy;
          m.slots = c.slots;
@@ -402,7 +444,7 @@ namespace vf
             m.as.veto_mod = 0;
             m.as.throw_mod = 0;
          }
-         const pm::outcome& want = !cf.have_act ? want_none : cf.actions ? want_on : want_off;
+         const pm::outcome& want = mr.want;
          const impl_result got = cf.fn( pb );
          R.eval();
          if( m.aborted || got.k == pm::FUEL ) {
@@ -458,8 +500,7 @@ namespace vf
             }
             if( got.k == pm::OK && cf.observed ) {
                // C04: surviving action trace == derivation
-               static const std::vector< pm::event > no_events;
-               const std::vector< pm::event >& wev = !cf.have_act ? no_events : cf.actions ? ev_on : ev_off;
+               const std::vector< pm::event >& wev = mr.ev;
                bool same = wev.size() == m.events.size();
                for( std::size_t i = 0; same && i < wev.size(); ++i ) {
                   same = wev[ i ].node == m.events[ i ].node && wev[ i ].begin == m.events[ i ].begin && wev[ i ].end == m.events[ i ].end;
